@@ -1361,10 +1361,8 @@ def stream_abi_illtyped(run, thorough):
 
 
 def abi_finding_matches(f, entry, cls, inner):
-    """tuple-element-store-into-typeerror: ONLY TupleElement.store_into(dst) called directly (t[i].store_into(dst), namedtuple.field.store_into(dst));
-    the same exception reached through dst.set(t[i]) is not in the class"""
-    return f["id"] == "tuple-element-store-into-typeerror" and entry in ("store_tuple_elem", "store_named_field") and \
-        cls == "TypeError" and inner[-2:] == ("store_into", "_index_tuple")
+    """no open finding has a class among the ABI assignment crashes (tuple-element-store-into-typeerror was repaired by 268422a)"""
+    return False
 
 
 def py_value_declared(target, value):
@@ -1383,6 +1381,74 @@ def decode_args_declared(value):
 
 
 # ---------------------------------------------------------------------------------------------
+# inner transactions with array-valued fields (Python lists of length 0, 1, 2 and TxnArray values)
+# ---------------------------------------------------------------------------------------------
+ITXN_ARRAY_FIELDS = ["accounts", "applications", "assets", "application_args", "approval_program_pages", "clear_state_program_pages"]
+
+
+def build_itxn_case(pt, spec):
+    Int, Bytes, Txn, Seq, B_ = pt.Int, pt.Bytes, pt.Txn, pt.Seq, pt.InnerTxnBuilder
+    pool = {"accounts": [Txn.sender(), Txn.accounts[1], pt.Global.zero_address()], "applications": [Int(1), Txn.applications[1], Int(7)],
+            "assets": [Int(5), Txn.assets[0], Int(9)], "application_args": [Bytes("a"), Txn.application_args[0], Bytes("c")],
+            "approval_program_pages": [Bytes("x"), Bytes("y"), Bytes("z")], "clear_state_program_pages": [Bytes("x"), Bytes("y"), Bytes("z")]}
+    fld = getattr(pt.TxnField, spec["field"])
+    if spec["value"] == "txnarray":
+        val = getattr(Txn, {"approval_program_pages": "approval_program_pages", "clear_state_program_pages": "clear_state_program_pages"}.get(spec["field"], spec["field"]))
+    elif spec["value"] == "tuple":
+        val = tuple(pool[spec["field"]][:spec["n"]])
+    else:
+        val = list(pool[spec["field"]][:spec["n"]])
+    base = {pt.TxnField.type_enum: pt.TxnType.ApplicationCall, pt.TxnField.application_id: Int(1)}
+    api = spec["api"]
+    if api == "SetField":
+        return Seq(B_.Begin(), B_.SetField(pt.TxnField.type_enum, pt.TxnType.ApplicationCall), B_.SetField(fld, val), B_.Submit(), pt.Approve())
+    if api == "SetFields":
+        return Seq(B_.Begin(), B_.SetFields({**base, fld: val}), B_.Submit(), pt.Approve())
+    if api == "Execute":
+        return Seq(B_.Execute({**base, fld: val}), pt.Approve())
+    if api == "ExecuteMethodCall":
+        return Seq(B_.ExecuteMethodCall(app_id=Int(1), method_signature="f()void", args=[], extra_fields={fld: val}), pt.Approve())
+    return Seq(B_.Begin(), B_.MethodCall(app_id=Int(1), method_signature="f()void", args=[], extra_fields={fld: val}), B_.Submit(), pt.Approve())
+
+
+def run_itxn_case(pt, spec):
+    return real_call(pt, lambda: pt.compileTeal(build_itxn_case(pt, spec), pt.Mode.Application, version=spec["version"]))
+
+
+def stream_itxn(run, thorough):
+    """array-valued inner-transaction fields: a list of ANY length (0 included) must end in TEAL or a PyTeal error, and the outcome class for
+    lengths 0 and 2 must be the one for length 1 (an empty list sets nothing)"""
+    pt, ck = run.pt, run.ck
+    stats, bad = {}, {}
+    for fi, field in enumerate(ITXN_ARRAY_FIELDS):
+        for ai, api in enumerate(("SetField", "SetFields", "Execute", "MethodCall", "ExecuteMethodCall")):
+            for version in ((5, 6, 7, 8, 9, 10) if thorough else ((6, 8, 10) if (fi + ai) % 2 == 0 else (7, 9))):
+                ref = None
+                for value, n_ in (("list", 1), ("list", 0), ("list", 2), ("list", 3), ("tuple", 0), ("tuple", 2), ("txnarray", 0)):
+                    spec = {"api": api, "field": field, "value": value, "n": n_, "version": version}
+                    x = run_itxn_case(pt, spec)
+                    cls = "ok" if x["outcome"] == "ok" else x.get("exc", x["outcome"])
+                    ck.count(("itxn", json.dumps(spec, sort_keys=True)), nontrivial=(x["outcome"] == "ok"))
+                    stats["%s:%s" % (value, cls)] = stats.get("%s:%s" % (value, cls), 0) + 1
+                    if value == "list" and n_ == 1:
+                        ref = cls
+                    if x["outcome"] in ("crash", "timeout"):
+                        inner = tuple(f[1] for f in ((x.get("tb") or {}).get("inner") or [])[-2:])
+                        bad.setdefault(("crash", cls, inner), []).append((spec, x, ref))
+                    elif value == "list" and ref == "ok" and cls != "ok":
+                        bad.setdefault(("acceptance", cls, ()), []).append((spec, x, ref))
+    for (kind, cls, inner), lst in list(bad.items())[:4]:
+        spec, x, ref = lst[0]
+        what = ("%s (innermost frames %s): a non-PyTeal exception for InnerTxnBuilder.%s with TxnField.%s = a %s of length %d at version %d" % (
+            cls, "/".join(inner), spec["api"], spec["field"], spec["value"], spec["n"], spec["version"])) if kind == "crash" else \
+            ("InnerTxnBuilder.%s with TxnField.%s = a list of length %d ends in %s at version %d although a list of length 1 compiles" % (
+                spec["api"], spec["field"], spec["n"], cls, spec["version"]))
+        ck.violation(what + " (%d cases of this class)" % len(lst),
+                     {"kind": kind, "itxn_case": spec, "result": {k_: v_ for k_, v_ in x.items() if k_ != "value"}, "python": "harness/c20.py build_itxn_case(pt, itxn_case)"})
+    return stats
+
+
+# ---------------------------------------------------------------------------------------------
 # compile-history sessions: the outcome class of a compilation must not depend on what was compiled before
 # ---------------------------------------------------------------------------------------------
 SESSION_PRELUDES = [("sub_illtyped_body", 8), ("sub_illtyped_body", 6), ("sub_illtyped_body_byref", 8), ("abi_sub_illtyped_body", 8),
@@ -1398,6 +1464,18 @@ def session_jobs():
     for p in SESSION_PRELUDES:
         jobs.append([{"session": mk([p] + SESSION_SLICE), "tag": "after:%s@v%d" % p, "timeout": 60}])
     jobs.append([{"session": mk(SESSION_PRELUDES + SESSION_SLICE), "tag": "after:all-preludes", "timeout": 60}])
+    # ONE OptimizeOptions object used for several programs in turn (approval then clear-state, Router.compile_program(optimize=...)):
+    # the outcome must equal the one with a fresh options object per program
+    opt_slice = {"ss": [(nm, v) for v in (6, 9, 10) for nm in ("global_storeload", "global_storeload_in_sub", "shared_slot_sub", "abi_uint64_main", "scratchvar_main")],
+                 "default": [(nm, v) for v in (9, 10) for nm in ("global_storeload", "global_storeload_in_sub", "shared_slot_sub", "abi_uint64_main", "scratchvar_main")]}
+    for kind in ("ss", "default"):
+        ref_steps = mk(opt_slice[kind])
+        if kind == "ss":
+            ref_steps += [{"prog": "router_pair_split", "version": v} for v in (6, 8, 10)] + [{"prog": "router_pair_combined", "version": v, "ss": True} for v in (6, 8, 10)]
+        jobs.append([{"session": ref_steps, "tag": "fresh-options:" + kind, "fresh_optimize": kind, "timeout": 60}])
+        for first in ("reserved_slot_main", "dynamic_slot_main", "shared_slot_sub"):
+            jobs.append([{"session": mk([(first, opt_slice[kind][0][1])] + opt_slice[kind]), "tag": "shared-options:%s:after:%s" % (kind, first),
+                          "shared_optimize": kind, "ref": "fresh-options:" + kind, "npre": 1, "timeout": 60}])
     return jobs
 
 
@@ -1421,10 +1499,29 @@ def summarize_sessions(ck, wres):
             ck.violation("history session (fresh interpreter): %s at version %d: %s" % (s_["prog"], s_["version"], step_class(s_)),
                          {"kind": "crash", "session": fresh["job"], "step": s_})
     reported = 0
+    by_tag = {r["job"].get("tag"): r for r in sess}
+    # Router.compile_program(optimize=o) compiles approval and clear-state with one options object: same outcome as separately
+    fo = by_tag.get("fresh-options:ss")
+    if fo is not None:
+        comb = {s_["version"]: s_ for s_ in fo["steps"] if s_["prog"] == "router_pair_combined"}
+        for s_ in fo["steps"]:
+            if s_["prog"] == "router_pair_split" and s_["version"] in comb and step_class(comb[s_["version"]]) != step_class(s_):
+                c_ = comb[s_["version"]]
+                stats["class_differences"] += 1
+                if stats.get("router_pair_reported"):
+                    continue
+                stats["router_pair_reported"] = 1
+                ck.violation("Router.compile_program(version=%d, optimize=OptimizeOptions(scratch_slots=True)) ends in %s (%s); its approval and clear-state programs "
+                             "compiled separately with fresh options end in %s" % (s_["version"], step_class(c_), c_.get("msg", "")[:80], step_class(s_)),
+                             {"kind": "acceptance" if s_["outcome"] == "teal" else "history", "session": fo["job"], "step": c_, "fresh_step": s_})
     for r in sess:
-        if r is fresh:
+        if r is fresh or r["job"].get("tag", "").startswith("fresh-options:"):
             continue
-        npre = len(r["steps"]) - len(fresh["steps"])
+        refsess = by_tag.get(r["job"].get("ref", "fresh"))
+        if refsess is None:
+            continue
+        ref = {(s_["prog"], s_["version"]): s_ for s_ in refsess["steps"]}
+        npre = r["job"].get("npre", len(r["steps"]) - len(fresh["steps"]))
         for s_ in r["steps"][:npre]:
             kk = "%s@v%d:%s" % (s_["prog"], s_["version"], step_class(s_))
             stats["prelude_outcomes"][kk] = stats["prelude_outcomes"].get(kk, 0) + 1
@@ -1434,7 +1531,9 @@ def summarize_sessions(ck, wres):
         diffs = []
         for s_ in r["steps"][npre:]:
             ck.count(("session", r["job"]["tag"], s_["prog"], s_["version"]), nontrivial=(s_["outcome"] == "teal"))
-            f = ref[(s_["prog"], s_["version"])]
+            f = ref.get((s_["prog"], s_["version"]))
+            if f is None:
+                continue
             if step_class(s_) != step_class(f):
                 diffs.append((s_, f))
             elif s_["outcome"] == "teal" and s_.get("sha") != f.get("sha"):
@@ -1443,9 +1542,11 @@ def summarize_sessions(ck, wres):
         if diffs and reported < 3:
             reported += 1
             s_, f = min(diffs, key=lambda d: (d[1]["outcome"] != "teal", d[0]["version"]))
-            ck.violation("after compiling %s in the same interpreter, %s at version %d ends in %s; in a fresh interpreter it ends in %s (%d programs of the "
-                         "acceptance slice change their outcome class)" % (r["job"]["tag"][6:], s_["prog"], s_["version"], step_class(s_), step_class(f), len(diffs)),
-                         {"kind": "acceptance" if f["outcome"] == "teal" else "history", "session": r["job"], "fresh_session": fresh["job"],
+            shared_opt = "shared_optimize" in r["job"]
+            ck.violation("session %s: %s at version %d ends in %s; %s it ends in %s (%d programs of the slice change their outcome class)" % (
+                r["job"]["tag"], s_["prog"], s_["version"], step_class(s_),
+                "with a fresh OptimizeOptions object per program" if shared_opt else "in a fresh interpreter", step_class(f), len(diffs)),
+                         {"kind": "acceptance" if f["outcome"] == "teal" else "history", "session": r["job"], "fresh_session": refsess["job"],
                           "step": s_, "fresh_step": f, "all_differences": [(a["prog"], a["version"], step_class(a), step_class(b_)) for a, b_ in diffs][:40]})
 
 
@@ -1469,12 +1570,18 @@ def replay(path):
         now = next((x for x in (a or {}).get("steps", [])[::-1] if x["prog"] == st_["prog"] and x["version"] == st_["version"]), None)
         print("step now:", json.dumps(now)[:600])
         if "fresh_session" in data:
-            f = by.get("fresh")
+            f = by.get(data["fresh_session"].get("tag"))
             fnow = next((x for x in (f or {}).get("steps", []) if x["prog"] == st_["prog"] and x["version"] == st_["version"]), None)
             print("fresh   :", json.dumps(fnow)[:600])
             bad = now is None or fnow is None or step_class(now) != step_class(fnow)
         else:
             bad = now is None or now["outcome"] in ("crash", "timeout")
+        print("still failing" if bad else "no longer failing")
+        return 1 if bad else 0
+    if "itxn_case" in data:
+        x = run_itxn_case(pt, data["itxn_case"])
+        print(json.dumps({k: v for k, v in x.items() if k != "value"}, default=repr)[:800])
+        bad = x["outcome"] in ("crash", "timeout") or (data.get("kind") == "acceptance" and x["outcome"] != "ok")
         print("still failing" if bad else "no longer failing")
         return 1 if bad else 0
     if "abi_case" in data:
@@ -1613,6 +1720,10 @@ def main(argv):
     t0 = time.time()
     ck.coverage["ill_typed_abi_assignments"] = stream_abi_illtyped(run, thorough)
     ck.coverage["abi_illtyped_s"] = round(time.time() - t0, 1)
+
+    t0 = time.time()
+    ck.coverage["inner_txn_array_fields"] = stream_itxn(run, thorough)
+    ck.coverage["itxn_s"] = round(time.time() - t0, 1)
 
     # ---- (2f) complexity probes (deterministic call counts, not timings)
     t0 = time.time()
